@@ -7,11 +7,12 @@
 EXTENDS TraceBatch, FiniteSets
 
 CONSTANTS MaxId, EndT, WarmT, Prios, RelDelays, AbsTimes, BadKinds, MaxOps, Strategy,
-          Bounds, MaxInits, AllowFaults, StratOps, MaxCmds, Cmds
+          Bounds, MaxInits, AllowFaults, StratOps, MaxCmds, Cmds,
+          PrintStats    \* BOOLEAN: print what the simulation statistics must report at quiescent observations (C11)
 VARIABLES rs, rep, clock, ev, pending, bound, incl, mode, seg, executed, prog, initOps,
           ann, due, notif, nrep, premature, ncmd, strat, op,
           statmemo    \* digest of the final statistics of the first complete replication
-D == INSTANCE DEVS
+D == INSTANCE SimStats
 
 dvars == <<rs, rep, clock, ev, pending, bound, incl, mode, seg, executed, prog, initOps,
            ann, due, notif, nrep, premature, ncmd, strat, op>>
@@ -47,6 +48,7 @@ Step ==
         /\ e.rs = rs /\ e.rep = rep /\ (rs # "NOT_INITIALIZED" => e.clock = clock)
         /\ (e.pending_known = 1 => SetOf(e.pending) = pending)
         /\ e.alive = (IF rs \in {"NOT_INITIALIZED", "ENDED"} THEN 0 ELSE 1)
+        /\ ((PrintStats /\ e.want_stats = 1) => PrintT(<<"EXPECT", tid, l, D!Closed, D!Expect>>))
         /\ IF e.stats # "" /\ rs = "ENDED" /\ ~premature
            THEN IF statmemo = "" THEN statmemo' = e.stats
                 ELSE e.stats = statmemo /\ statmemo' = statmemo
